@@ -169,6 +169,19 @@ def updVar (K : Nat) (gammas : List Vec) (data : List Rat) : Vec :=
   tab K (fun i => sumT (gammas.zip data) (fun p => atR p.1 i * ((p.2 - atR m i) * (p.2 - atR m i)))
     / sumT gammas (fun g => atR g i))
 
+/-- The parameters are probability weights and the emission densities positive (what a
+    Gaussian-emission model hands to `forward_backward`): `π ≥ 0` with a positive total, `A ≥ 0` with a
+    positive total in every row, every `B[t][j] > 0`.  (Totals need not be exactly one: the doubles
+    the code holds are normalised only up to rounding.) -/
+def posModel (K : Nat) (pi : Nat → Rat) (A : Nat → Nat → Rat) (B : List Vec) : Bool :=
+  (List.range K).all (fun i => decide (0 ≤ pi i)) && decide (0 < sumK K pi) &&
+  (List.range K).all (fun i => (List.range K).all (fun j => decide (0 ≤ A i j)) && decide (0 < sumK K (A i))) &&
+  B.all (fun b => (List.range K).all (fun j => decide (0 < atR b j)))
+
+/-- `gamma[:-1].sum(axis=0)[i]`: the occupancy of state `i` before the last time point (the
+    denominator of row `i` of the updated transition matrix). -/
+def occupancy (gammas : List Vec) (i : Nat) : Rat := sumT gammas.dropLast (fun g => atR g i)
+
 /-! ## `HiddenMarkovModel.__init__` argument checks -/
 
 inductive Guess where
@@ -300,6 +313,8 @@ def rleFrom : Nat → List Int → List Run
 def rle (path : List Int) : List Run := rleFrom 0 path
 
 def Run.range (r : Run) : Nat × Nat := (r.start, r.stop)
+/-- the number of samples of a run -/
+def Run.len (r : Run) : Int := (r.stop : Int) - r.start
 
 /-- The runs are non-empty and contiguous from index `i` to index `n`: pairwise disjoint, tiling `[i, n)`. -/
 def Contig : Nat → Nat → List Run → Prop
@@ -313,6 +328,9 @@ def AdjDiff : List Run → Prop
 
 /-- Writing every run out again. -/
 def expand (rs : List Run) : List Int := rs.flatMap (fun r => List.replicate (r.stop - r.start) r.state)
+
+/-- The number of samples covered by all returned dwells together (`Σ_state Σ dwell_counts[state]`). -/
+def totalCounts (d : List (Int × List (Nat × Nat))) : Int := (d.map (fun e => (dwellCounts e.2).sum)).sum
 
 /-- `Σ_j ξ(i, j)` for every `i`. -/
 def rowSums (K : Nat) (x : List Vec) : Vec := tab K (fun i => sumK K (atR (x.getD i [])))
@@ -382,10 +400,24 @@ def guess? : List String → Option Guess
   | ["other"] => some .other
   | _ => none
 
+/-- The two sides of `em_monotone_tables`: the exact likelihood (sum over all paths) of the model
+    and of the model with `π`, `A` replaced by what `ClassicHmm.update` computes from the
+    forward–backward run, emission table kept. -/
+def emTables (K : Nat) (pi : Nat → Rat) (A : Nat → Nat → Rat) (B : List Vec) : Option (Rat × Rat) :=
+  (forwardBackward K pi A B).map fun r =>
+    (likelihoodSpec K pi A B,
+      likelihoodSpec K (atR (updPi r.gammas)) (fnOfRows (updA K r.gammas r.xis)) B)
+
+/-- `Σπ ≤ 1` and every row of `A` sums to at most one (exactly normalised models, and doubles
+    whose rounding went down). -/
+def subStochastic (K : Nat) (pi : Nat → Rat) (A : Nat → Nat → Rat) : Bool :=
+  decide (sumK K pi ≤ 1) && (List.range K).all (fun i => decide (sumK K (A i) ≤ 1))
+
 /-- ops:
+  `c16.emtab K pi A B`              → `L L' (L ≤ L') hypotheses` (`em_monotone_tables`: small traces only, all paths summed)
   `c16.vit K logpi logA logB path`  → `modelpath optimum score(path) scale` (`N` = −∞, `bad` = wrong shape)
   `c16.fb K pi A B data`            → `c gammas xis pi' A' mean' var'` or `degenerate` (some `c_t = 0`)
-  `c16.dwell path T|F`              → state ranges;  `c16.dwellc path T|F` → dwell counts
+  `c16.dwell path T|F`              → state ranges;  `c16.dwellc path T|F` → dwell counts;  `c16.dwelltot path T|F` → samples covered by all dwells
   `c16.init n kind [m]`             → `ok` or the documented error  -/
 def handle : List String → Option String
   | ["c16.vit", K, lp, la, lb, path] => do
@@ -418,7 +450,25 @@ def handle : List String → Option String
           some (showList showR (r.steps.map (·.c)) ++ " " ++ showListList showR r.gammas ++ " "
             ++ showListList showR (r.xis.map List.flatten) ++ " " ++ showList showR (updPi r.gammas) ++ " "
             ++ showListList showR (updA K r.gammas r.xis) ++ " " ++ showList showR (updMean K r.gammas data)
-            ++ " " ++ showList showR (updVar K r.gammas data))
+            ++ " " ++ showList showR (updVar K r.gammas data)
+            -- the hypotheses / conclusions of `scaling_positive`, `posteriors_nonneg`, `occupancy_positive`
+            ++ " " ++ showBool (posModel K (atR pi) (fnOfRows A) B)
+            ++ " " ++ showBool (r.steps.all (fun s => decide (0 < s.c)))
+            ++ " " ++ showBool (r.gammas.all (fun g => (List.range K).all (fun i => decide (0 ≤ atR g i)))
+                && r.xis.all (fun x => (List.range K).all (fun i => (List.range K).all (fun j =>
+                  decide (0 ≤ atR (x.getD i []) j)))))
+            ++ " " ++ showBool ((List.range K).all (fun i => decide (atR pi i ≤ 0) || decide (0 < occupancy r.gammas i))))
+  | ["c16.emtab", K, pi, A, B] => do
+    let K ← nat? K
+    let pi ← ratList? pi
+    let A ← ratListList? A
+    let B ← ratListList? B
+    if K = 0 ∨ pi.length ≠ K ∨ A.length ≠ K ∨ A.any (·.length ≠ K) ∨ B.any (·.length ≠ K) then none
+    else match emTables K (atR pi) (fnOfRows A) B with
+      | none => some "IndexError"
+      | some (l0, l1) =>
+        some (showR l0 ++ " " ++ showR l1 ++ " " ++ showBool (decide (l0 ≤ l1)) ++ " "
+          ++ showBool (posModel K (atR pi) (fnOfRows A) B && subStochastic K (atR pi) (fnOfRows A)))
   | ["c16.dwell", path, ex] => do
     let path ← listOf? label? path
     let ex ← bool? ex
@@ -430,6 +480,12 @@ def handle : List String → Option String
     let ex ← bool? ex
     match dwellsChecked path ex with
     | .ok d => some (showCounts d)
+    | .error e => some e
+  | ["c16.dwelltot", path, ex] => do
+    let path ← listOf? label? path
+    let ex ← bool? ex
+    match dwellsChecked path ex with
+    | .ok d => some (toString (totalCounts d))
     | .error e => some e
   | "c16.init" :: n :: g => do
     let n ← nat? n
